@@ -10,6 +10,8 @@ import ast
 import os.path
 import re
 import shlex
+import unicodedata
+from collections import ChainMap
 
 from .consteval import CantEval, DefaultDict, EnumVal, FuncRef
 from .index import ClassInfo, FuncInfo, dotted
@@ -78,6 +80,11 @@ PURE_EXTERNAL = {
     "shlex.quote": lambda s: tok("quote:" + s) if "⟦" in s else shlex.quote(s),
     "re.sub": re.sub, "re.findall": re.findall, "re.search": re.search, "re.match": re.match, "re.fullmatch": re.fullmatch,
     "copy.copy": lambda x: x.copy() if hasattr(x, "copy") else x,
+    "unicodedata.category": unicodedata.category,
+    "collections.ChainMap": ChainMap,
+    "os.path.isabs": os.path.isabs,
+    "os.path.normpath": lambda p: tok("norm:" + p) if "⟦" in p else os.path.normpath(p),
+    "os.path.abspath": lambda p: tok("abs:" + p) if "⟦" in p or not os.path.isabs(p) else os.path.normpath(p),
 }
 SAFE_METHODS = {
     str: {"format", "join", "strip", "rstrip", "lstrip", "split", "splitlines", "replace", "startswith", "endswith", "lower", "upper", "partition",
@@ -87,6 +94,8 @@ SAFE_METHODS = {
     set: {"add", "union", "issuperset", "issubset", "difference", "intersection", "update", "copy", "discard"},
     frozenset: {"union", "issuperset", "issubset", "difference", "intersection"},
     tuple: {"index", "count"},
+    bytes: {"decode"},
+    ChainMap: {"get", "items", "keys", "values", "pop", "update", "new_child"},
 }
 
 
@@ -347,6 +356,8 @@ class PureInterp:
                 raise Raised("AttributeError", n.attr)
         if isinstance(o, FuncRef):
             return FuncRef(o.name + "." + n.attr)
+        if isinstance(o, ChainMap) and n.attr == "maps":
+            return o.maps
         return ("method", o, n.attr)
 
     def e_JoinedStr(self, n, env, module, depth):
@@ -516,10 +527,28 @@ class PureInterp:
             name = f.name
             if name in self.hooks:
                 return self.hooks[name](*args, **kwargs)
+            obj = self.index.lookup(name)
+            if isinstance(obj, FuncInfo):
+                return self.call(obj, args, kwargs, depth=depth + 1)
             if name.startswith("builtins."):
                 b = name.split(".", 1)[1]
                 if b == "isinstance":
                     return self._isinstance(args[0], args[1])
+                if b == "filter":
+                    return [x for x in args[1] if (self.truth(x) if args[0] is None else self.truth(self.apply(args[0], [x], {}, depth)))]
+                if b == "map":
+                    return [self.apply(args[0], [x], {}, depth) for x in args[1]]
+                if b == "next":
+                    it = list(args[0])
+                    if it:
+                        return it[0]
+                    if len(args) > 1:
+                        return args[1]
+                    raise Raised("StopIteration", "")
+                if b == "iter":
+                    return list(args[0])
+                if b == "callable":
+                    return isinstance(args[0], (FuncInfo, FuncRef)) or (isinstance(args[0], tuple) and args[0] and args[0][0] in ("lambda", "bound"))
                 if b == "hasattr":
                     o = args[0]
                     return (args[1] in o.__dict__["_attrs"]) if isinstance(o, Obj) else hasattr(o, args[1])
